@@ -817,10 +817,26 @@ fn spec_slot_byte(i: usize, name: &[u8; 11], attr: u8, cluster: u32, size: u32, 
 /// directory is preserved, only the root block is written; a full root gives
 /// NotEnoughSpace and writes nothing (in particular nothing past the root region).
 #[kani::proof]
-#[kani::unwind(34)]
+#[kani::unwind(130)]
 fn c03_new_entry_root16() {
     let mut blocks: [Block; G16A_N] = zero_blocks();
-    blocks[G16A_ROOT as usize] = any_block();
+    // slots 0..=3 and 15 fully symbolic (free, deleted or live), slots 4..=14 live
+    // with concrete names: the first free slot is one of 0,1,2,3,15 or none
+    blocks[G16A_ROOT as usize] = full_concrete_dir_block();
+    {
+        let sym: [u8; 160] = kani::any();
+        let r = &mut blocks[G16A_ROOT as usize].contents;
+        let mut i = 0;
+        while i < 128 {
+            r[i] = sym[i];
+            i += 1;
+        }
+        i = 0;
+        while i < 32 {
+            r[480 + i] = sym[128 + i];
+            i += 1;
+        }
+    }
     blocks[G16A_DATA as usize] = any_block(); // first data cluster: must never be touched
     let root = blocks[G16A_ROOT as usize].clone();
     let mut vol = g16a();
